@@ -227,7 +227,7 @@ func genValue(r *vh.Rng, st *jstats, depth, maxDepth int) *jval {
 }
 
 func ws(r *vh.Rng, sb *strings.Builder) {
-	if r.Chance(0.7) {
+	if r == nil || r.Chance(0.7) {
 		return
 	}
 	for i, k := 0, r.Between(1, 2); i < k; i++ {
@@ -498,7 +498,9 @@ func runJSON(sum *vh.Summary, cw *vh.CaseWriter, text string, gen *jval, verbose
 	obs := &jsonObs{}
 	fail := func(what string, detail interface{}) {
 		failed = true
-		sum.Fail(what, cs, map[string]interface{}{"detail": detail, "observed": obs})
+		if sum != nil {
+			sum.Fail(what, cs, map[string]interface{}{"detail": detail, "observed": obs, "shrunk_from": shrunkFrom})
+		}
 	}
 	var ref interface{}
 	refErr := json.Unmarshal([]byte(text), &ref)
@@ -598,7 +600,7 @@ func runJSON(sum *vh.Summary, cw *vh.CaseWriter, text string, gen *jval, verbose
 	}
 
 	// ---- property oracle on the implementation ----
-	if refErr == nil {
+	if refErr == nil && !skipOracle {
 		switch {
 		case n == nil:
 			fail("valid JSON document was not read into a node tree", obs.ReadErr)
@@ -659,7 +661,9 @@ func runJSON(sum *vh.Summary, cw *vh.CaseWriter, text string, gen *jval, verbose
 		}
 	}
 	term := fmt.Sprintf("CJson (mkJCase %s %s %s %s %s %s %s)", val, vh.CoqList(tab), vh.CoqList(toks), tree, sT, sF, sC)
-	cw.Add(term, cs)
+	if cw != nil {
+		cw.Add(term, cs)
+	}
 	if verbose {
 		fmt.Printf("json text: %q\n implementation: tree=%s\n JSONify2=%s copy=%s copy_err=%q read_err=%q\n encoding/json: %s (err %v)\n",
 			text, obs.Tree, obs.JSONify2, obs.CopyOut, obs.CopyErr, obs.ReadErr, obs.Reference, refErr)
@@ -694,8 +698,87 @@ func genJSONCase(r *vh.Rng, sum *vh.Summary, cw *vh.CaseWriter) {
 	if st.nums > 0 {
 		sum.Hist("json:numbers")
 	}
+	nf := len(sum.Failures)
 	failed := runJSON(sum, cw, text, v, false)
+	if failed && len(sum.Failures) == nf+1 {
+		// the oracle fails: shrink the value and report the minimal failing document instead
+		sum.Failures = sum.Failures[:nf]
+		v = shrinkJSON(v)
+		var sb2 strings.Builder
+		v.serialise(nil, &sb2)
+		shrunkFrom = text
+		runJSON(sum, cw, sb2.String(), v, false)
+		shrunkFrom = ""
+		return
+	}
 	if !failed && nontrivial && len(sum.Samples) < 2 && st.depth >= 2 {
 		sum.Sample(map[string]interface{}{"kind": "json", "text": text})
 	}
+}
+
+// shrunkFrom is attached to reported failures; skipOracle turns the property oracle off for
+// corpus cases outside the theorem's hypotheses (model-vs-implementation comparison only).
+var shrunkFrom string
+var skipOracle bool
+
+func jsonCandidates(v *jval) []*jval {
+	var out []*jval
+	switch v.K {
+	case jArr:
+		out = append(out, v.Arr...)
+		for i := range v.Arr {
+			c := &jval{K: jArr}
+			c.Arr = append(append(c.Arr, v.Arr[:i]...), v.Arr[i+1:]...)
+			out = append(out, c)
+		}
+		for i, x := range v.Arr {
+			for _, xc := range jsonCandidates(x) {
+				c := &jval{K: jArr, Arr: append([]*jval{}, v.Arr...)}
+				c.Arr[i] = xc
+				out = append(out, c)
+			}
+		}
+	case jObj:
+		out = append(out, v.Vals...)
+		for i := range v.Keys {
+			c := &jval{K: jObj}
+			c.Keys = append(append(c.Keys, v.Keys[:i]...), v.Keys[i+1:]...)
+			c.Vals = append(append(c.Vals, v.Vals[:i]...), v.Vals[i+1:]...)
+			out = append(out, c)
+		}
+		for i, x := range v.Vals {
+			for _, xc := range jsonCandidates(x) {
+				c := &jval{K: jObj, Keys: v.Keys, Vals: append([]*jval{}, v.Vals...)}
+				c.Vals[i] = xc
+				out = append(out, c)
+			}
+		}
+	case jStr:
+		if v.S != "s" {
+			out = append(out, &jval{K: jStr, S: "s", Ser: `"s"`})
+		}
+	case jNum:
+		if v.Num != "1" {
+			out = append(out, &jval{K: jNum, F: 1, Num: "1"})
+		}
+	}
+	return out
+}
+
+func shrinkJSON(v *jval) *jval {
+	for round := 0; round < 200; round++ {
+		progress := false
+		for _, c := range jsonCandidates(v) {
+			var sb strings.Builder
+			c.serialise(nil, &sb)
+			if runJSON(nil, nil, sb.String(), c, false) {
+				v, progress = c, true
+				break
+			}
+		}
+		if !progress {
+			break
+		}
+	}
+	return v
 }
